@@ -61,6 +61,50 @@ theorem wAdv_congr {c c' : Conf} (h1 : c'.wpc = c.wpc) (h2 : c'.rb.sem = c.rb.se
     wAdv c' = wAdv c := by
   unfold wAdv curLen; rw [h1, h2, h3]
 
+/-- the writer's facts carried over to a configuration with the same writer state and history -/
+theorem WFacts_rb {c c' : Conf} {q q' : List (List Nat)} (h : WFacts c q) (h1 : c'.wprog = c.wprog)
+    (h3 : c'.readsOk = c.readsOk) (h4 : c'.wpc = c.wpc)
+    (hwf : ∀ op, WF c.rb (TR c) (TR c + total q) op c.wpc → WF c'.rb (TR c) (TR c + total q') op c.wpc) :
+    WFacts c' q' := by
+  unfold WFacts TR at *
+  rw [h1, h3, h4]
+  cases hw : c.wprog with
+  | nil => rw [hw] at h; exact h
+  | cons op rest => rw [hw] at h; exact hwf op h
+
+/-- a change of memory confined to the header of the oldest chunk (stated for an arbitrary new
+    memory so that no unifier ever looks inside the store) -/
+theorem CInv.rstore_gen (h : CInv c q) {d ds} (hq : q = d :: ds) (m' : Array Nat) (pc' : RPc)
+    (hsz : m'.size = 4 * c.rb.W)
+    (hcell : ∀ a, 4 * (TR c + 2) ≤ a → a < 4 * (TR c + c.rb.W) → cell m' c.rb.W a = cell c.rb.mem c.rb.W a)
+    (hnx : word c.rb.mem c.rb.W (TR c + total q + 1) ≠ MAGIC → word m' c.rb.W (TR c + total q + 1) ≠ MAGIC)
+    (ht : rtok pc' = rtok c.rpc)
+    (hst : HeadStored m' c.rb.W (TR c) d (rclr pc') (rdead pc'))
+    (hrf : RFacts { c with rb := { c.rb with mem := m' }, rpc := pc' } q) :
+    CInv { c with rb := { c.rb with mem := m' }, rpc := pc' } q := by
+  have hW := h.wpos
+  have h2 := cw_ge d.length
+  have hu := h.used
+  subst hq
+  rw [total_cons] at hu
+  have e := wAdv_congr (c := c) (c' := { c with rb := { c.rb with mem := m' }, rpc := pc' }) rfl rfl rfl
+  have ep := pend_congr (c := c) (c' := { c with rb := { c.rb with mem := m' }, rpc := pc' }) rfl rfl
+  refine ⟨hsz, h.wge, h.wlt, h.hq, h.hrp, ?_, h.used, ⟨hst, ?_⟩, ?_, ?_, ?_, hrf⟩
+  · show c.rb.wp = (TR c + total (d :: ds) + wAdv { c with rb := { c.rb with mem := m' }, rpc := pc' }) % c.rb.W
+    rw [e]; exact h.hwp
+  · show Stored m' c.rb.W (TR c + cw d.length) ds
+    exact Stored_frame hW (fun a ha hb => hcell a (by omega) (by omega)) h.stored.2
+  · intro hp
+    rw [ep] at hp
+    exact hnx (h.next hp)
+  · intro n hn; show n + rtok pc' = _; rw [ht]; exact h.semc n hn
+  · refine WFacts_rb h.wf rfl rfl rfl (fun wop hw => ?_)
+    show WF { c.rb with mem := m' } (TR c) (TR c + total (d :: ds)) wop c.wpc
+    refine WF_frame hW (by rw [total_cons]; omega) ?_ hw
+    intro a ha hb
+    rw [total_cons] at ha
+    exact hcell a (by omega) hb
+
 /-- a store by the reader into the header of the oldest chunk -/
 theorem CInv.rstore (h : CInv c q) {d ds} (hq : q = d :: ds) (A v : Nat) (hA : A = TR c ∨ A = TR c + 1)
     (hv : v < 2 ^ 32) (hvm : v ≠ MAGIC) (pc' : RPc) (ht : rtok pc' = rtok c.rpc)
@@ -68,31 +112,16 @@ theorem CInv.rstore (h : CInv c q) {d ds} (hq : q = d :: ds) (A v : Nat) (hA : A
     (hrf : RFacts { c with rb := { c.rb with mem := setWord c.rb.mem c.rb.W A v }, rpc := pc' } q) :
     CInv { c with rb := { c.rb with mem := setWord c.rb.mem c.rb.W A v }, rpc := pc' } q := by
   have hW := h.wpos
-  have h2 := cw_ge d.length
-  have hu := h.used
-  subst hq
-  rw [total_cons] at hu
-  refine ⟨by simp; exact h.size, h.wge, h.wlt, h.hq, h.hrp, ?_, h.used, ⟨hst, ?_⟩, ?_, ?_, ?_, hrf⟩
-  · rw [wAdv_congr (c := c) rfl rfl rfl]; exact h.hwp
-  · show Stored (setWord c.rb.mem c.rb.W A v) c.rb.W (TR c + cw d.length) ds
-    exact Stored_frame hW (fun a ha hb => cell_setWord_ne hW (by rcases hA with e | e <;> subst e <;> omega)) h.stored.2
-  · intro hp
-    show word (setWord c.rb.mem c.rb.W A v) c.rb.W (TR c + total (d :: ds) + 1) ≠ MAGIC
-    have hp' : pend c = false := by rw [← pend_congr (c := c) rfl rfl]; exact hp
-    have hn := h.next hp'
-    exact word_ne_magic_setWord (m := c.rb.mem) (W := c.rb.W) (A := TR c + total (d :: ds) + 1) (B := A) (v := v) h.size hW hv hvm hn
-  · intro n hn; show n + rtok pc' = _; rw [ht]; exact h.semc n hn
-  · have := h.wf
-    unfold WFacts at *
-    cases hw : c.wprog with
-    | nil => rw [hw] at this; exact this
-    | cons wop wrest =>
-      rw [hw] at this
-      show WF { c.rb with mem := setWord c.rb.mem c.rb.W A v } (TR c) (TR c + total (d :: ds)) wop c.wpc
-      refine WF_frame hW (by rw [total_cons]; omega) ?_ this
-      intro a ha hb
-      rw [total_cons] at ha
-      exact cell_setWord_ne hW (by rcases hA with e | e <;> subst e <;> omega)
+  have hsz : (setWord c.rb.mem c.rb.W A v).size = 4 * c.rb.W := by simp; exact h.size
+  have hcell : ∀ a, 4 * (TR c + 2) ≤ a → a < 4 * (TR c + c.rb.W) →
+      cell (setWord c.rb.mem c.rb.W A v) c.rb.W a = cell c.rb.mem c.rb.W a := by
+    intro a ha hb
+    exact cell_setWord_ne hW (by rcases hA with e | e <;> subst e <;> omega)
+  have hnx : word c.rb.mem c.rb.W (TR c + total q + 1) ≠ MAGIC →
+      word (setWord c.rb.mem c.rb.W A v) c.rb.W (TR c + total q + 1) ≠ MAGIC :=
+    fun hn => word_ne_magic_setWord h.size hW hv hvm hn
+  generalize setWord c.rb.mem c.rb.W A v = m' at *
+  exact h.rstore_gen hq m' pc' hsz hcell hnx ht hst hrf
 
 theorem r_rcClr {old new} (h : CInv c q) (hp : c.rprog = op :: rest) (hpc : c.rpc = .rcClr old new) : CInv (rstep c) q := by
   have hrf := RFacts_get hp h.rf
